@@ -4,6 +4,7 @@ import (
 	"encoding/json"
 	"fmt"
 	"math/rand"
+	"os"
 	"sort"
 	"strings"
 	"testing"
@@ -111,8 +112,41 @@ func mkMount(dest string, v int) *api.Mount {
 	return &api.Mount{Destination: dest, Source: valStr("mount", v), Type: "bind", Options: []string{"bind", "ro"}}
 }
 
+// mkDevice: type, minor, file mode and ownership vary with the value so that a mixed-up or shared
+// field shows (the value of a device item is its whole description, devDesc).
 func mkDevice(path string, v int) *api.LinuxDevice {
-	return &api.LinuxDevice{Path: path, Type: "c", Major: int64(v), Minor: 1}
+	d := &api.LinuxDevice{Path: path, Type: "c", Major: int64(v), Minor: int64(v%5 + 1)}
+	if v%2 == 1 {
+		d.Type = "b"
+	}
+	if v%3 == 0 {
+		d.FileMode = api.FileMode(os.FileMode(0o600 + v%7))
+	}
+	if v%4 == 0 {
+		d.Uid = api.UInt32(uint32(1000 + v%10))
+	}
+	if v%5 == 0 {
+		d.Gid = api.UInt32(uint32(2000 + v%10))
+	}
+	return d
+}
+
+func devDesc(typ string, major, minor int64, mode *os.FileMode, uid, gid *uint32) string {
+	s := fmt.Sprintf("%s %d:%d", typ, major, minor)
+	if mode != nil {
+		s += fmt.Sprintf(" mode=%o", uint32(*mode))
+	}
+	if uid != nil {
+		s += fmt.Sprintf(" uid=%d", *uid)
+	}
+	if gid != nil {
+		s += fmt.Sprintf(" gid=%d", *gid)
+	}
+	return s
+}
+
+func devDescNRI(d *api.LinuxDevice) string {
+	return devDesc(d.Type, d.Major, d.Minor, d.FileMode.Get(), d.Uid.Get(), d.Gid.Get())
 }
 
 func mkHooks(typ string, v int) *api.Hooks {
